@@ -130,7 +130,7 @@ def check_c17(prop, tier, seed, work, t0):
     required += ["index:out:" + k for k in ("random", "permuted", "identity", "reversed_stride")]
     required += ["shape:in:" + s for s in ("contiguous", "stride", "index", "broadcast", "register")]
     required += ["shape:out:" + s for s in ("contiguous", "stride", "index", "register")]
-    required += ["mode:result_aliases_input", "mode:result_register_is_input_register", "mode:concurrent_callers_trials", "mode:third_call_same_addresses_changed_contents", "mode:inputs_of_exact_extent_before_unmapped_page_or_redzone", "mode:broadcast_scalar_is_an_lvalue_in_the_result_array",
+    required += ["mode:result_aliases_input", "mode:result_register_is_input_register", "mode:concurrent_callers_trials", "mode:third_call_same_addresses_changed_contents", "mode:inputs_of_exact_extent_before_unmapped_page_or_redzone", "mode:broadcast_scalar_is_an_lvalue_in_the_result_array", "mode:both_inputs_read_from_the_same_array",
                  "values:trials_with_noncanonical_input", "values:noncanonical_result_lanes"]
     required += ["trials:batch", "trials:avx", "trials:avx512", "par:parcpy", "par:parSetZero", "par:size_zero", "par:thread_arg_nonpositive",
                  "par:thread_arg:INT_MIN", "par:thread_arg:-1", "par:thread_arg:0", "par:thread_arg:1", "par:thread_arg:64", "par:thread_arg:1000",
